@@ -11,20 +11,20 @@ Open Scope Z_scope.
 Open Scope list_scope.
 
 (* ---------- what straight-line code leaves alone ---------- *)
-(* everything but registers, flags and spill slots: heap, high-water mark, the stack outside the spill
+(* everything but registers, flags and spill slots: heap, output, the stack outside the spill
    area (in particular the words above it, where the prologue saved the callee-saved registers) *)
 Definition frame_eq (s s' : xstate) (sp : Z) : Prop :=
-  heap s' = heap s /\ hw s' = hw s /\ out s' = out s /\
+  heap s' = heap s /\ out s' = out s /\
   (forall k, (forall p, slot_ok p -> k <> key (slot_addr sp p)) -> PM.find k (stack s') = PM.find k (stack s)).
 Lemma frame_eq_refl s sp : frame_eq s s sp.
 Proof. repeat split; auto. Qed.
 Lemma frame_eq_trans s1 s2 s3 sp : frame_eq s1 s2 sp -> frame_eq s2 s3 sp -> frame_eq s1 s3 sp.
 Proof.
-  intros (A1 & B1 & C1 & E1) (A2 & B2 & C2 & E2). repeat split; try congruence.
+  intros (A1 & C1 & E1) (A2 & C2 & E2). repeat split; try congruence.
   intros k Hk. rewrite E2, E1; auto.
 Qed.
 Lemma same_frame_eq s s' sp : same_frame s s' sp -> frame_eq s s' sp.
-Proof. intros (A & B & _ & D & E). repeat split; auto. Qed.
+Proof. intros (A & B & _ & _ & E). repeat split; auto. Qed.
 Lemma frame_eq_rset s sp r v : frame_eq s (rset s r v) sp.
 Proof. repeat split; auto. Qed.
 Lemma frame_eq_set_flags s sp f : frame_eq s (set_flags s f) sp.
@@ -241,26 +241,10 @@ Proof. intros CA H. exact (CA j c H). Qed.
 Lemma nth_error_mid {X} (a : list X) x b : nth_error (a ++ x :: b) (List.length a) = Some x.
 Proof. rewrite nth_error_app2 by lia. now rewrite Nat.sub_diag. Qed.
 
-(* ---------- the state relation (integer fragment) ---------- *)
+(* ---------- the state relation ---------- *)
 Definition is_int_binding (b : binding) : bool :=
   match bchi b, bty b with Ext, I64 => true | _, _ => false end.
 Definition ctx_int (c : ctx) : bool := forallb is_int_binding c.
-
-Record rel (c : ctx) (e : env) (s : xstate) (sp : Z) : Prop := mk_rel {
-  rel_frame : frame_ok s sp;
-  rel_align : sp mod 16 = 8;                 (* the body runs with rsp = 8 mod 16 *)
-  rel_room : STACK_LIMIT + 64 <= sp;         (* room for the pushes around a print call *)
-  rel_ids : env_ids e = ids c;
-  rel_nodup : NoDup (ids c);
-  rel_vals : forall i x v, nth_error e i = Some (x, v) ->
-             exists z t, v = VInt z /\ xtpos Snd i = Ok t /\ lget s sp t = Some z
-}.
-
-Lemma rel_length c e s sp : rel c e s sp -> List.length e = List.length c.
-Proof.
-  intros R. pose proof (rel_ids _ _ _ _ R) as H. apply (f_equal (@List.length N)) in H.
-  unfold env_ids, ids in H. now rewrite !map_length in H.
-Qed.
 
 Lemma lookup_nth (e : env) x v :
   AxSem.lookup e x = Some v -> exists i y, nth_error e i = Some (y, v) /\ idn y = x.
@@ -280,7 +264,6 @@ Proof.
     exfalso. apply NI. rewrite E. apply nth_error_In in H. unfold env_ids.
     apply (in_map (fun p : ident * value => idn (fst p))) in H. exact H.
 Qed.
-
 Lemma env_ctx_nth c e i y v :
   env_ids e = ids c -> nth_error e i = Some (y, v) -> exists b, nth_error c i = Some b /\ idn (bvar b) = idn y.
 Proof.
@@ -300,7 +283,7 @@ Proof.
   unfold tpos, x86_backend, x86_backend_with, b_temporary_from_position, temporary_from_position, tnum_n.
   change RESERVED with 4%N. change REGISTER_NUM with 16%N. change RETURN1 with 4%N.
   destruct (N.ltb_spec (2 * N.of_nat i + 1 + 4) 16).
-  - intros E; inversion E; subst. intros X; inversion X. lia.
+  - intros E X. assert (Q : (2 * N.of_nat i + 1 + 4 = 4)%N) by congruence. lia.
   - destruct (N.ltb _ _); intros E; inversion E; subst. discriminate.
 Qed.
 Lemma xtpos_snd_rdx i t : xtpos Snd i = Ok t -> t = XR RETURN2 -> i = O.
@@ -308,20 +291,8 @@ Proof.
   unfold tpos, x86_backend, x86_backend_with, b_temporary_from_position, temporary_from_position, tnum_n.
   change RESERVED with 4%N. change REGISTER_NUM with 16%N. change RETURN2 with 5%N.
   destruct (N.ltb_spec (2 * N.of_nat i + 1 + 4) 16).
-  - intros E; inversion E; subst. intros X. assert (Q : (2 * N.of_nat i + 1 + 4 = 5)%N) by congruence. lia.
+  - intros E X. assert (Q : (2 * N.of_nat i + 1 + 4 = 5)%N) by congruence. lia.
   - destruct (N.ltb _ _); intros E; inversion E; subst. discriminate.
-Qed.
-
-(* reading an operand: the machine's lookup and the generator's variable_temporary meet *)
-Lemma rel_lookup c e s sp a x :
-  rel c e s sp -> lookup_int e a = Some x ->
-  exists i b t, nth_error c i = Some b /\ idn (bvar b) = idn a /\ xtpos Snd i = Ok t /\ lget s sp t = Some x.
-Proof.
-  intros R H. unfold lookup_int, lookup_id in H. destruct (AxSem.lookup e (idn a)) as [[z| |]|] eqn:L; try discriminate.
-  inversion H; subst z. destruct (lookup_nth e (idn a) (VInt x) L) as (i & y & Hn & Hy).
-  destruct (env_ctx_nth c e i y _ (rel_ids _ _ _ _ R) Hn) as (b & Hb & Eb).
-  destruct (rel_vals _ _ _ _ R i y _ Hn) as (z & t & Ev & Ht & Hl). inversion Ev; subst z.
-  exists i, b, t. repeat split; auto. congruence.
 Qed.
 Lemma vt_of_nth c c' i b :
   NoDup (ids (c ++ c')) -> nth_error c i = Some b ->
@@ -333,32 +304,101 @@ Lemma vt_of_nth0 c i b :
   NoDup (ids c) -> nth_error c i = Some b -> variable_temporary x86_backend Snd c (idn (bvar b)) = xtpos Snd i.
 Proof. intros ND H. now apply vt_tpos. Qed.
 
-(* a state change that keeps every variable location keeps the relation *)
-Lemma rel_keep c e s s' sp :
-  rel c e s sp -> frame_ok s' sp ->
-  (forall i t, (i < List.length c)%nat -> xtpos Snd i = Ok t -> lget s' sp t = lget s sp t) ->
-  rel c e s' sp.
+Section Rel.
+(* what a closure's code pointer points to: (address, type name, clauses); fixed by the program-level
+   development (Proof/X86SimProg.v); the statement-level lemmas never look inside *)
+Variable CL : Z -> ident -> list clause -> Prop.
+
+(* how the value of position i is represented:
+   - an integer (binding `ext i64`): the SECOND temporary of the position holds it;
+   - a closure without captured variables (binding `cns T`): the first temporary holds the null block
+     pointer, the second one the address of the closure's jump table / single clause *)
+Inductive vrep (s : xstate) (sp : Z) (i : nat) : binding -> value -> Prop :=
+| vrep_int b z t :
+    bchi b = Ext -> bty b = I64 -> xtpos Snd i = Ok t -> lget s sp t = Some z -> vrep s sp i b (VInt z)
+| vrep_clo b tn cls a t1 t2 :
+    bchi b = Cns -> bty b = Decl tn ->
+    xtpos Fst i = Ok t1 -> xtpos Snd i = Ok t2 -> lget s sp t1 = Some 0 -> lget s sp t2 = Some a ->
+    CL a tn cls -> vrep s sp i b (VClo tn cls []).
+
+Record rel (c : ctx) (e : env) (s : xstate) (sp : Z) : Prop := mk_rel {
+  rel_frame : frame_ok s sp;
+  rel_align : sp mod 16 = 8;                 (* the body runs with rsp = 8 mod 16 *)
+  rel_room : STACK_LIMIT + 128 <= sp;        (* room for the pushes around a print call *)
+  rel_free : exists f, rget s FREE = Some f; (* the deferred-free list register is defined *)
+  rel_ids : env_ids e = ids c;
+  rel_nodup : NoDup (ids c);
+  rel_vals : forall i x v, nth_error e i = Some (x, v) -> exists b, nth_error c i = Some b /\ vrep s sp i b v
+}.
+
+Lemma rel_length c e s sp : rel c e s sp -> List.length e = List.length c.
 Proof.
-  intros R F K. destruct R as [F0 Al Ro Ids ND Vals]. split; auto.
-  intros i x v Hn. destruct (Vals i x v Hn) as (z & t & Ev & Ht & Hl). exists z, t. repeat split; auto.
-  rewrite (K i t); auto. assert (i < List.length e)%nat by (apply nth_error_Some; congruence).
-  apply (f_equal (@List.length N)) in Ids. unfold env_ids, ids in Ids. rewrite !map_length in Ids. lia.
+  intros R. pose proof (rel_ids _ _ _ _ R) as H. apply (f_equal (@List.length N)) in H.
+  unfold env_ids, ids in H. now rewrite !map_length in H.
 Qed.
 
-(* extending the environment by a new last variable whose temporary has been written *)
+Lemma vrep_keep s s' sp i b v :
+  (forall n t, allowed n b -> xtpos n i = Ok t -> lget s' sp t = lget s sp t) -> vrep s sp i b v -> vrep s' sp i b v.
+Proof.
+  intros K V. destruct V as [b z t A B T L|b tn cls a t1 t2 A B T1 T2 L1 L2 C].
+  - eapply vrep_int; eauto. rewrite (K Snd _ (or_introl eq_refl) T). exact L.
+  - assert (AL : forall n, allowed n b) by (intros n; right; congruence).
+    eapply vrep_clo; eauto; [now rewrite (K _ _ (AL Fst) T1)|now rewrite (K _ _ (AL Snd) T2)].
+Qed.
+
+(* reading an operand: the machine's lookup and the generator's variable_temporary meet *)
+Lemma rel_lookup c e s sp a x :
+  rel c e s sp -> lookup_int e a = Some x ->
+  exists i b t, nth_error c i = Some b /\ idn (bvar b) = idn a /\ xtpos Snd i = Ok t /\ lget s sp t = Some x.
+Proof.
+  intros R H. unfold lookup_int, lookup_id in H. destruct (AxSem.lookup e (idn a)) as [[z| |]|] eqn:L; try discriminate.
+  inversion H; subst z. destruct (lookup_nth e (idn a) (VInt x) L) as (i & y & Hn & Hy).
+  destruct (env_ctx_nth c e i y _ (rel_ids _ _ _ _ R) Hn) as (b & Hb & Eb).
+  destruct (rel_vals _ _ _ _ R i y _ Hn) as (b' & Hb' & V). assert (b' = b) by congruence. subst b'.
+  inversion V; subst. exists i, b, t. repeat split; auto. congruence.
+Qed.
+
+(* a state change that keeps every live variable location (and rbp) keeps the relation; the first
+   temporary of an integer variable is not live *)
+Lemma rel_keep c e s s' sp :
+  rel c e s sp -> frame_ok s' sp -> rget s' FREE = rget s FREE ->
+  (forall i b n t, nth_error c i = Some b -> allowed n b -> xtpos n i = Ok t -> lget s' sp t = lget s sp t) ->
+  rel c e s' sp.
+Proof.
+  intros R F FR K. destruct R as [F0 Al Ro Fr Ids ND Vals]. split; auto.
+  - now rewrite FR.
+  - intros i x v Hn. destruct (Vals i x v Hn) as (b & Hb & V). exists b. split; [exact Hb|].
+    eapply vrep_keep; [|exact V]. intros n t AL T. apply (K i b n t); auto.
+Qed.
+
+(* extending the environment by a new last integer variable whose temporary has been written *)
 Lemma rel_push c e s s' sp v z t :
   rel c e s sp -> NoDup (ids (c ++ [mkb v Ext I64])) ->
   xtpos Snd (List.length c) = Ok t -> lget s' sp t = Some z -> preserved s s' sp t ->
   rel (c ++ [mkb v Ext I64]) (e ++ [(v, VInt z)]) s' sp.
 Proof.
   intros R ND Ht Hv (PR & _ & _ & F').
-  pose proof (rel_length _ _ _ _ R) as LEN. destruct R as [F0 Al Ro Ids ND0 Vals]. split; auto.
+  pose proof (rel_length _ _ _ _ R) as LEN. destruct R as [F0 Al Ro Fr Ids ND0 Vals]. split; auto.
+  - destruct Fr as (f & Fr). exists f. rewrite <- Fr. apply (PR (XR FREE)); [cbn; discriminate| |discriminate].
+    intros E; subst t. destruct (xtpos_ok _ _ _ Ht) as (_ & _ & _ & N & _). congruence.
   - unfold env_ids, ids in *. rewrite !map_app, Ids. reflexivity.
   - intros i x w Hn. destruct (Nat.lt_ge_cases i (List.length e)) as [L|L].
-    + rewrite nth_error_app1 in Hn by exact L. destruct (Vals i x w Hn) as (z0 & t0 & Ev & Ht0 & Hl).
-      exists z0, t0. repeat split; auto. rewrite <- Hl.
-      destruct (xtpos_ok _ _ _ Ht0) as (A & B & _). apply PR; auto.
-      intros E; subst t0. destruct (tpos_inj x86_backend x86_backend_ok _ _ _ _ _ Ht0 Ht) as [_ E]. lia.
+    + rewrite nth_error_app1 in Hn by exact L. destruct (Vals i x w Hn) as (b & Hb & V).
+      exists b. split; [rewrite nth_error_app1 by lia; exact Hb|].
+      eapply vrep_keep; [|exact V]. intros n t0 _ T0.
+      destruct (xtpos_ok _ _ _ T0) as (A & B & _). apply PR; auto.
+      intros E; subst t0. destruct (tpos_inj x86_backend x86_backend_ok _ _ _ _ _ T0 Ht) as [_ E]. lia.
     + rewrite nth_error_app2 in Hn by exact L. destruct (i - List.length e)%nat as [|k] eqn:K; cbn in Hn; [|destruct k; discriminate].
-      inversion Hn; subst. exists z, t. repeat split; auto. replace i with (List.length c) by lia. exact Ht.
+      inversion Hn; subst. exists (mkb x Ext I64). split.
+      * rewrite nth_error_app2 by lia. replace (i - List.length c)%nat with O by lia. reflexivity.
+      * eapply vrep_int; eauto. replace i with (List.length c) by lia. exact Ht.
 Qed.
+End Rel.
+Arguments rel_frame {CL c e s sp}.
+Arguments rel_align {CL c e s sp}.
+Arguments rel_room {CL c e s sp}.
+Arguments rel_free {CL c e s sp}.
+Arguments rel_ids {CL c e s sp}.
+Arguments rel_nodup {CL c e s sp}.
+Arguments rel_vals {CL c e s sp}.
+Arguments rel_length {CL c e s sp}.
